@@ -233,7 +233,7 @@ void explore() {
     enumerate<int>(2, depth, st);
     enumerate<Tracked>(2, depth, st);
     shm->validated = st.transitions;
-    detail(fmt("breadth-first search to fixpoint from every construction path x length 0..%d for int and for a lifetime-tracked class type: %llu states, %llu transitions; plus every history to depth %d (lengths <= 2) without deduplication: %llu more transitions",
+    sx::detail(fmt("breadth-first search to fixpoint from every construction path x length 0..%d for int and for a lifetime-tracked class type: %llu states, %llu transitions; plus every history to depth %d (lengths <= 2) without deduplication: %llu more transitions",
                maxlen, (unsigned long long)bs, (unsigned long long)bt, depth, (unsigned long long)(st.transitions - bt)));
 }
 
